@@ -90,6 +90,8 @@ func genCase(rt *rapid.T) Case {
 			c.Steps = append(c.Steps, Step{Op: &aclgen.Op{Kind: "request_remove", Actor: rapid.IntRange(1, n-1).Draw(rt, "leaver")}})
 		case 1: // a pending join request
 			c.Steps = append(c.Steps, Step{Op: &aclgen.Op{Kind: "request_join", Actor: rapid.IntRange(5, n-1).Draw(rt, "joiner"), Ref: rapid.IntRange(-1, 1).Draw(rt, "inv")}})
+		case 3: // the owner adds somebody directly (possibly an account with a pending request)
+			c.Steps = append(c.Steps, Step{Op: &aclgen.Op{Kind: "add", Actor: 0, Target: rapid.IntRange(5, n-1).Draw(rt, "added"), Perm: rapid.SampledFrom([]int{aclgen.Admin, aclgen.Writer, aclgen.Reader}).Draw(rt, "addperm")}})
 		case 2:
 			ops := aclgen.GenOps(rt, n, 1, 1)
 			c.Steps = append(c.Steps, Step{Op: &ops[0]})
@@ -453,5 +455,17 @@ func TestRegRemoveThenRepermissionGuest(t *testing.T) {
 			{Kind: "account_remove", Target: 5, T2: 6, Perm: 3, Ref: -2, Variant: 17},
 			{Kind: "perm_changes", Target: 5, T2: 4, Perm: 4, Ref: 1, Variant: 11}}}},
 		{F: &aclgen.Forge{Author: 0, Contents: []aclgen.FContent{{Kind: "perm_change", Target: 6, Perm: aclgen.Writer}}}},
+	}}, run)
+}
+
+// reported by an independent seeding agent as already failing on the pinned tree: an account
+// with a pending join request is added directly as Admin by the owner; the stale request stays,
+// and a non-owner admin "accepts" it later with Reader, demoting that admin.
+func TestRegStaleJoinRequestAfterDirectAdd(t *testing.T) {
+	outerT = t
+	vstat.One(t, prop, Case{Seed: 8, N: 9, Prelude: true, Steps: []Step{
+		// prelude leaves account 7 with a pending join request
+		{Op: &aclgen.Op{Kind: "add", Actor: 0, Target: 7, Perm: aclgen.Admin}},
+		{F: &aclgen.Forge{Author: 1, Contents: []aclgen.FContent{{Kind: "request_accept", Target: 7, Perm: aclgen.Reader, Ref: 0, Variant: 1}}}},
 	}}, run)
 }
